@@ -131,6 +131,10 @@ CHECKS["C28"] = ("exploration", "attribution / convergence monitor over recorded
     "Real server and real client with NodeMonitor channel subscriptions; 1-4 writer connections, 100-1600 unique writes each, nodes added and removed meanwhile in half of the histories; every delivered message must name the node its value was written to, and within 6000 heartbeats of the last write the last delivered value per monitored node equals the node's value.",
     "late 'handle not found' messages for just-removed nodes are counted, not attributed; histories with monitor-reported drops are inconclusive", "3/C28")
 
+CHECKS["C26"] = ("exploration", "reconnect monitor with a scripted subscription server (per-session subscriptions, retransmission queues, ledger of sent messages and acknowledgements) and fault injection counted in requests; self-identifying values join the server's ledger with the application's delivery record",
+    "1-3 subscriptions x 1-3 items, 1-3 faults (channel loss, session loss, restart with id reuse; later faults mostly inside the reconnect), TransferSubscriptions supported / unsupported / invalid; once stably Connected every subscription of the application must receive a new message with all items, everything received must be acknowledged under keep-alive traffic, nothing acknowledged twice on one connection, nothing acknowledged that was not sent or not delivered.",
+    "a client that does not get back to a stable Connected state is inconclusive here (C25); sequence numbers keep growing across restarts so that ledger keys stay unique", "3/C26")
+
 NOT_YET = {}
 
 
